@@ -178,6 +178,7 @@ for f, lean, rust in (("atan2", "FloatLike.atan2", "x0.atan2(x1)"), ("powf", "Fl
     op(f"arith.{f}", "FF", "F", f"({lean} x0 x1 : Float)", rust)
 op("arith.powi2", "F", "F", "(FloatLike.fmul x0 x0 : Float)", "x0.powi(2)")
 op("arith.is_normal", "F", "B", "(FloatLike.isNormal x0 : Bool)", "x0.is_normal()")
+op("arith.is_finite", "F", "B", "(FloatLike.isFinite x0 : Bool)", "x0.is_finite()")
 op("arith.clamp", "F", "F", "(FloatLike.clamp x0 (FloatLike.fneg FloatLike.one) FloatLike.one : Float)", "x0.clamp(-1.0, 1.0)")
 op("arith.as_usize", "F", "N", "(FloatLike.toUsize x0 : Nat)", "x0 as usize")
 op("arith.of_usize", "N", "F", "(FloatLike.ofNat x0 : Float)", "x0 as f64")
